@@ -629,12 +629,12 @@ def spawn_layer_in_subprocess(result, script_parts, options, features,
             output.error_with_banner(errmsg)
 
         # Only trust a complete report: one line per failure and error
-        # announced by the header, and a newline after the last line.
+        # announced by the header, followed by the end marker.  (Anything
+        # may come after it, and a dying child may glue anything to a line
+        # that was cut short.)
         new_failures = []
         new_errors = []
         try:
-            if got_header and not stderr_buf[0].endswith(b'\n'):
-                raise StopIteration
             while nfail > 0:
                 nfail -= 1
                 # Doing erriter.next().strip() confuses the 2to3 fixer, so
@@ -649,7 +649,9 @@ def spawn_layer_in_subprocess(result, script_parts, options, features,
                 # returns bytes, so we decode it.
                 next_err = next(erriter)
                 new_errors.append((next_err.strip().decode(), None))
-        except StopIteration:
+            if got_header and next(erriter).strip() != b'end of report':
+                raise StopIteration
+        except (StopIteration, UnicodeDecodeError):
             result.num_ran = 0
             errors.append(("subprocess for %s" % layer_name, None))
             output.error_with_banner(
